@@ -90,6 +90,28 @@ Theorem C04_mem_requests_linearizable : forall n (st : mstore) (oss : list (list
 Proof. exact mem_requests_linearizable. Qed.
 Print Assumptions C04_mem_requests_linearizable.
 
+(* "consistent with program order": under EVERY schedule the steps a (non-planning) thread has committed are
+   exactly the FIRST steps of its program, in program order - all of them once the thread has finished.
+   Generic form, then for request threads of the store (steps as shard / mode / step-function triples). *)
+Theorem C04_mem_commits_in_program_order : forall (S R : Type) atomic (ss : list S) (progs : list (list (mact S R))) sched i p,
+  progs !! i = Some p -> Forall no_plan p ->
+  let m0 := (msh_init ss, map mthread_of progs) in
+  exists t, (run (msem atomic) sched m0).2 !! i = Some t /\
+       thread_commits i (trace (msem atomic) sched m0) ++ prog_commits (todo t) = prog_commits p /\
+       (todo t = [] -> thread_commits i (trace (msem atomic) sched m0) = prog_commits p).
+Proof. exact @commits_in_program_order. Qed.
+Print Assumptions C04_mem_commits_in_program_order.
+
+Theorem C04_mem_requests_program_order : forall n (st : mstore) (oss : list (list cop)) sched i os,
+  oss !! i = Some os ->
+  let m0 := (msh_init st, map mthread_of (map (cops_prog n) oss)) in
+  exists t k, (run (msem false) sched m0).2 !! i = Some t /\
+    thread_commits i (trace (msem false) sched m0) =
+      map (fun o => (op_shard (cop_mop n o), op_write (cop_mop n o), op_fun (cop_mop n o))) (firstn k os) /\
+    (todo t = [] -> k = length os).
+Proof. exact mem_requests_program_order. Qed.
+Print Assumptions C04_mem_requests_program_order.
+
 (* the machine runs (non-vacuity): an announce, an expiry pass and a delete interleaved on one swarm; the
    pass's step blocks on the lock, then finds the swarm changed since its snapshot *)
 Theorem C04_mem_conc_example :
